@@ -58,6 +58,11 @@ fn parse_gatt(s: &str) -> Option<u16> {
     }
 }
 
+/// state read that survives an implementation that has panicked while its lock was held
+fn read_state(b: &Btp) -> [u32; 20] {
+    catch(AssertUnwindSafe(|| b.verif_state())).unwrap_or([0; 20])
+}
+
 /// the observable state in the model's order (sent_at dropped)
 fn state_vec(b: &Btp) -> Vec<u32> {
     let st = b.verif_state();
@@ -351,8 +356,8 @@ impl Gen {
                 push(&b, ops, "o:-:0:512".into());
                 if kind == 3 {
                     // in the middle of an SDU: a valid first segment of a long message
-                    let st = b.verif_state();
-                    let m = st[3] as usize;
+                    let st = read_state(&b);
+                    let m = (st[3] as usize).max(8); // a mutated implementation may agree on anything
                     let mut seg = hdr_bytes(0x01, 0, 0, 0, (3 * m) as u16);
                     seg.extend((0..m - 4).map(|i| i as u8));
                     push(&b, ops, format!("i:-:1:{}", hex(&seg)));
@@ -380,11 +385,11 @@ impl Gen {
             for bits in 0..64u8 {
                 let flags = (bits & 0x07) | ((bits & 0x08) << 0) | ((bits & 0x10) << 1) | ((bits & 0x20) << 1);
                 for seqc in 0..4u64 {
-                    for ackc in 0..4u64 {
+                    for ackc in 0..5u64 {
                         for _ in 0..reps {
                             let mut ops = vec![];
                             let b = self.context(kind, &mut ops);
-                            let st = b.verif_state();
+                            let st = read_state(&b);
                             let (mtu, exp_seq, last_sent) = (st[3] as usize, (st[11] as u8).wrapping_add(1), st[15] as u8);
                             let seq = match seqc {
                                 0 => exp_seq,
@@ -396,6 +401,7 @@ impl Gen {
                                 0 => last_sent,
                                 1 => last_sent.wrapping_add(1),
                                 2 => last_sent.wrapping_sub(1),
+                                3 => last_sent.wrapping_sub(st[13] as u8),
                                 _ => self.rng.below(256) as u8,
                             };
                             let mut fl = flags;
@@ -432,7 +438,7 @@ impl Gen {
                             let _ = apply(&b, &ops[ops.len() - 3]);
                             let _ = apply(&b, "o:-:1:512");
                             let _ = apply(&b, "r:2048");
-                            let st = b.verif_state();
+                            let st = read_state(&b);
                             if st[5] == 0 {
                                 let nseq = (st[11] as u8).wrapping_add(1);
                                 let mut s2 = hdr_bytes(0x05, 0, 0, nseq, 3);
@@ -517,9 +523,9 @@ impl Gen {
             // the SDU the peer is in the middle of sending
             let mut peer_left: usize = 0;
             while (ops.len() as u64) < nops && alive {
-                let st = b.verif_state();
+                let st = read_state(&b);
                 let established = st[1] == 1;
-                let (mtu, exp_seq, last_sent) = (st[3] as usize, (st[11] as u8).wrapping_add(1), st[15] as u8);
+                let (mtu, exp_seq, last_sent) = ((st[3] as usize).max(8), (st[11] as u8).wrapping_add(1), st[15] as u8);
                 let c = self.rng.below(100);
                 if !established || c < 3 {
                     // (re-)handshake
@@ -600,9 +606,9 @@ impl Gen {
                         seg.truncate(k);
                     }
                     alive = push(&b, &mut ops, format!("i:-:1:{}", hex(&seg)));
-                    if b.verif_state()[11] as u8 != seq || bad {
+                    if read_state(&b)[11] as u8 != seq || bad {
                         // refused (or mangled): what the peer still owes is unknown to it too
-                        peer_left = b.verif_state()[12] as usize;
+                        peer_left = read_state(&b)[12] as usize;
                     }
                     self.count("hr_segment");
                 } else if c < 55 {
@@ -660,7 +666,7 @@ impl Gen {
                         let _ = apply(&b, "o:-:0:512");
                         ops.push("o:-:0:512".into());
                         for _ in 0..90 {
-                            let st = b.verif_state();
+                            let st = read_state(&b);
                             let s = if rehs == 1 { (st[11] as u8).wrapping_add(1) } else { seq };
                             // zero-length SDUs take no buffer space: only the window limits them
                             let mut seg = hdr_bytes(0x0d, 0, st[15] as u8, s, 0);
@@ -700,7 +706,7 @@ impl Gen {
             go(&b, &mut ops, format!("i:{}:1:{}", mtu, hex(&hs_req(mtu, ws))));
             go(&b, &mut ops, "o:-:0:512".into());
             for k in 0..330u32 {
-                let st = b.verif_state();
+                let st = read_state(&b);
                 let seq = (st[11] as u8).wrapping_add(1);
                 // the peer acknowledges everything it got so far and sends a one-segment SDU
                 let mut seg = hdr_bytes(0x0d, 0, st[15] as u8, seq, 2);
@@ -756,7 +762,7 @@ impl Gen {
         let timer_pc = self.rng.range(0, 60);
         let mut burst: Option<(char, u64)> = None;
         while (ops.len() as u64) < target_ops && !dead {
-            let mtu = p.b.verif_state()[3].max(20) as u64;
+            let mtu = read_state(&p.b)[3].max(20) as u64;
             let x = if self.rng.below(10) < bias_a { 'A' } else { 'B' };
             if style == 1 && burst.is_none() && self.rng.chance(1, 12) {
                 burst = Some((x, self.rng.range(3, 90)));
@@ -802,10 +808,10 @@ impl Gen {
         self.next_id += 1;
         self.count(&format!("cases_pair{style}"));
         *self.stats.entry("ops_total".into()).or_insert(0) += ops.len() as u64;
-        let st = p.b.verif_state();
+        let st = read_state(&p.b);
         *self.stats.entry(format!("pair_mtu_{}", st[3] / 50 * 50)).or_insert(0) += 1;
         *self.stats.entry(format!("pair_ws_{}", st[4] / 10 * 10)).or_insert(0) += 1;
-        if p.a.verif_state()[15] < 40 && ops.len() > 1200 {
+        if read_state(&p.a)[15] < 40 && ops.len() > 1200 {
             self.count("pair_seq_wrapped_A");
         }
         self.lines.push(format!(
@@ -824,11 +830,11 @@ fn gen(tier: &str, seed: u64, outdir: &str) {
     rsm_harness::silence_panics();
     let mut g = Gen { rng: Rng::new(seed), lines: vec![], stats: BTreeMap::new(), next_id: 0 };
     let thorough = tier == "thorough";
-    g.header_sweep(if thorough { 8 } else { 1 });
+    g.header_sweep(if thorough { 4 } else { 1 });
     g.handshake_sweep();
     g.wrap_streams();
-    g.hostile_random(if thorough { 12000 } else { 1500 }, if thorough { 400 } else { 250 });
-    let pairs = if thorough { 3000 } else { 260 };
+    g.hostile_random(if thorough { 12000 } else { 2500 }, if thorough { 350 } else { 250 });
+    let pairs = if thorough { 2400 } else { 400 };
     for k in 0..pairs {
         let style = k % 4;
         let target = match k % 5 {
